@@ -174,6 +174,9 @@ def main():
         ms = keep
     if only:
         ms = [m for m in ms if re.search(only, m["id"])]
+    if os.environ.get("AUDIT_PROPS"):
+        want = set(os.environ["AUDIT_PROPS"].split(","))
+        ms = [m for m in ms if m["property"] in want]
     if os.environ.get("AUDIT_SKIP"):
         skip = set(open(os.environ["AUDIT_SKIP"]).read().split())
         ms = [m for m in ms if m["id"] not in skip]
